@@ -1544,6 +1544,16 @@ class Explorer:
             if not _close(expected[k], got[k], self.tol):
                 bad = (k, jsonable(expected[k]), jsonable(got[k]))
                 break
+        if bad is not None:
+            # The real code, run in doubles on this witness, left the path its exact-real twin took (observations differ). The obligations
+            # proved symbolically are then about another execution; the native run's own obligations are the only verdict on this one.
+            # One that fails there is a violation shown on the real code with a concrete input (floats are not reals: e.g. ceil(4 + 1e-15)),
+            # and is reported as such; a divergence with no failing native obligation stays a harness error.
+            for (label, verdict, d) in cs.obligations:
+                if verdict == "refuted" and not label.startswith("native:"):
+                    self.stats.cex.append({"params": jsonable(self.params), "label": label, "assignment": assignment, "detail": jsonable(d),
+                                           "reproduced": True, "observed": jsonable(got), "concrete_failed": [label],
+                                           "float_divergent_path": jsonable(bad)})
         if bad is None:
             for (label, verdict, _d) in cs.obligations:
                 if verdict == "refuted" and label.startswith("native:"):
